@@ -58,9 +58,45 @@ def chain_execute(case):
     from cobald.interfaces import Pool, PoolDecorator, Controller, Partial
     from cobald.interfaces._partial import PartialBind
 
+    import threading
+    import cobald.controller.stepwise as stepwise_mod
+
     rnd = random.Random(case["seed"])
     n, tail = case["n"], case["tail"]
     LOG = []
+
+    class Tok(object):
+        """an argument whose IDENTITY matters (equal only to itself): elements must receive the
+        very objects that were supplied, not copies"""
+        __slots__ = ("i", "j")
+
+        def __init__(self, i, j):
+            self.i, self.j = i, j
+
+    def value(kind, i, j):
+        r = rnd.random()
+        if r < 0.3:
+            return Tok(i, j)
+        if r < 0.4:
+            return threading.Lock()   # can be neither copied nor pickled
+        if r < 0.5:
+            return [kind, i, j]       # mutable, shared
+        return (kind, i, j)
+
+    # the head may be a stepwise controller template (control.s(...): a template of the Stepwise
+    # controller, built by UnboundStepwise): the class it constructs is looked up in the module
+    # when the template is made, which lets this driver observe the construction
+    step_head = n >= 2 and rnd.random() < 0.3
+    RealStepwise = stepwise_mod.Stepwise
+
+    class RecStep(RealStepwise):
+        pos = 1
+
+        def __init__(self, target, base, *rules, **kwargs):
+            RealStepwise.__init__(self, target, base, *rules, **kwargs)
+            self.pos, self.args, self.kwargs = 1, (base,) + rules, kwargs
+            LOG.append(1)
+    RecStep.__name__ = RecStep.__qualname__ = "Elem1"
 
     def make(i):
         base = Pool if i == n else (Controller if (i == 1 and rnd.random() < 0.5) else PoolDecorator)
@@ -92,10 +128,37 @@ def chain_execute(case):
             cls.__len__ = lambda self: 0
     expect = {}
 
+    def step_template():
+        def rule(j):
+            return lambda pool, interval: j
+        control = stepwise_mod.stepwise(rule(0))
+        added = []
+        for j in range(rnd.randrange(0, 3)):
+            added.append((10.0 * (j + 1), rule(j + 1)))
+            if rnd.random() < 0.5:
+                control.add(added[-1][1], supply=added[-1][0])
+            else:
+                control.add(supply=added[-1][0])(added[-1][1])
+        pos = [(100.0 * (j + 1), rule(10 + j)) for j in range(rnd.randrange(0, 3))]
+        kws = {"interval": rnd.choice([0.5, 7, 20])} if rnd.random() < 0.6 else {}
+        expect[1] = ((control.base,) + tuple(added) + tuple(pos), dict(kws))
+        ncalls = rnd.randrange(0, 3)
+        cuts = sorted(rnd.randrange(0, len(pos) + 1) for _ in range(ncalls))
+        parts = [pos[a:b] for a, b in zip([0] + cuts, cuts + [len(pos)])]
+        kparts = [dict() for _ in range(ncalls + 1)]
+        for k, v in kws.items():
+            kparts[rnd.randrange(0, ncalls + 1)][k] = v
+        t = control.s(*parts[0], **kparts[0])
+        for a, kw in zip(parts[1:], kparts[1:]):
+            t = t(*a, **kw)
+        return t
+
     def template(i):
+        if i == 1 and step_head:
+            return step_template()
         npos = rnd.randrange(0, 3)
-        pos = [("p", i, j) for j in range(npos)]
-        kws = {k: ("k", i, k) for k in rnd.sample(["ka", "kb", "kc"], rnd.randrange(0, 4))}
+        pos = [value("p", i, j) for j in range(npos)]
+        kws = {k: value("k", i, k) for k in rnd.sample(["ka", "kb", "kc"], rnd.randrange(0, 4))}
         expect[i] = (tuple(pos), dict(kws))
         if i == n and tail == "instance":
             return classes[i](*pos, **kws)
@@ -136,6 +199,7 @@ def chain_execute(case):
         return ev_again(e[1], path + (1,)) >> ev_again(e[2], path + (2,))
 
     exc = ""
+    stepwise_mod.Stepwise = RecStep
     try:
         # the pool instance exists before the expression is evaluated
         res = ev(case["expr"])
@@ -145,6 +209,8 @@ def chain_execute(case):
     except Exception as ex:  # noqa
         res = None
         exc = type(ex).__name__
+    finally:
+        stepwise_mod.Stepwise = RealStepwise
 
     argsok = True
 
